@@ -792,6 +792,15 @@ class Interp:
                 return [self.apply(args[0], list(t), {}) for t in zip(*its)]
             if name == "filter" and len(args) == 2:
                 return [x for x in self.iterate(args[1]) if self.truth(self.apply(args[0], [x], {}) if args[0] is not None else x)]
+            if name in ("field", "dataclasses.field") and not args:
+                # a dataclass field read off the class: its default
+                if "default" in kwargs:
+                    return kwargs["default"]
+                if "default_factory" in kwargs:
+                    return self.apply(kwargs["default_factory"], [], {})
+                raise Undecided("dataclass field without a default")
+            if name == "id" and len(args) == 1:
+                return id(args[0])
             if name == "type" and len(args) == 1:
                 return TypeRef(self.kind_of(args[0]))
             if name == "bool" and len(args) == 1 and not isinstance(args[0], (Sym, Coerced)):
@@ -836,13 +845,13 @@ class Interp:
             if name == "all" and len(args) == 1:
                 return all(self.truth(x) for x in self.iterate(args[0]))
             if name == "getattr" and len(args) in (2, 3) and isinstance(args[1], str):
-                if len(args) == 3 and isinstance(args[0], ObjV) and args[1] not in args[0].attrs and self.method(args[1]) is None:
-                    return args[2]
                 try:
                     return self.getattr(args[0], args[1])
-                except Undecided:
+                except Undecided as ex:
                     if len(args) == 3 and isinstance(args[0], (dict, list)):
                         return args[2]
+                    if len(args) == 3 and isinstance(args[0], ObjV) and str(ex).startswith("attribute "):
+                        return args[2]  # neither stored on the object nor defined by its class
                     raise
             if name in _COERCIONS and args:
                 if isinstance(args[0], (Sym, Coerced)):
